@@ -4,6 +4,7 @@ use crate::util::{Ctx, Report};
 use serde_json::Value;
 
 pub mod bytesgen;
+pub mod c01;
 pub mod c02;
 pub mod c03;
 pub mod c05;
@@ -16,6 +17,9 @@ pub mod codec;
 pub fn run(prop: &str, leg: &str, ctx: &Ctx, rep: &mut Report) -> bool {
     match (prop, leg) {
         ("selftest", _) => crate::selftest::run(ctx, rep),
+        ("C01", "matrix") => c01::matrix(ctx, rep),
+        ("C01", "native") => c01::native(ctx, rep),
+        ("C01", "concurrent") => c01::concurrent(ctx, rep),
         ("C02", "differential") => c02::differential(ctx, rep),
         ("C02", "boundary") => c02::boundary(ctx, rep),
         ("C03", "decoders") => c03::decoders(ctx, rep),
@@ -43,6 +47,7 @@ pub fn replay(v: &Value) -> bool {
         "C12" => c12::replay(r),
         "C07" => codec::replay(r),
         "C03" => c03::replay(r),
+        "C01" => c01::replay(r),
         "C09" => c09::replay(r),
         "C05" => c05::replay(r),
         "C06" => c06::replay(r),
